@@ -539,6 +539,7 @@ def signature(case, ans):
 
 class C17(PropertyCheck):
     pid = "C17"
+    claimed = True
     props_modules = ["KDVerif.Props.C17"]
     extra_build = ["KDVerif.Driver.Masks"]
     driver_main = "mains/Masks.lean"
